@@ -134,12 +134,25 @@ def run(ck):
     lim = semlib.generate(ck, "limits", L)
     for i, p in enumerate(lim):
         p["id"] = i + 1
-    outs = semlib.tlc_outcomes(ck, lim, njobs=6, maxstr=L, maxbytes=L, tag="lim")
-    real = semlib.real_outcomes(ck, lim, nproc=4, extra={"max_str": L, "max_bytes": L})
-    for p in lim:
+    # the two maxima are independent settings: the family runs with equal limits and with the bytes limit below / above the string limit
+    configs = [(L, L), (L, L - 3), (L, L + 3)]
+    runs = []
+    for (ms, mb) in configs:
+        o_ = semlib.tlc_outcomes(ck, lim, njobs=6, maxstr=ms, maxbytes=mb, tag="lim%d_%d" % (ms, mb))
+        r_ = semlib.real_outcomes(ck, lim, nproc=4, extra={"max_str": ms, "max_bytes": mb})
+        runs.append((ms, mb, o_, r_))
+    for (ms, mb, outs, real) in runs:
+      for p in lim:
         o = real[p["id"]]
         ck.evaluations += 1
         v, det = semcmp.compare(outs[p["id"]], o)
+        if (ms, mb) != (L, L):
+            if v == "disagree":
+                ck.violation("limit-sem:" + p["cell"].split(" ")[0] + ":unequal-limits", "limits program (MaxStringLen=%d, MaxBytesLen=%d, %s) disagrees with TengoSem: expected %s got %s\n%s" % (
+                    ms, mb, p["cell"], det["expected"], det["got"], p["src"]), {"program": p, "model": outs[p["id"]], "real": o, "maxstr": ms, "maxbytes": mb})
+            elif v == "agree":
+                ck.traces += 1
+            continue
         if v == "disagree":
             ck.violation("limit-sem:" + p["cell"].split(" ")[0], "limits program (L=%d, %s) disagrees with TengoSem: expected %s got %s\n%s" % (
                 L, p["cell"], det["expected"], det["got"], p["src"]), {"program": p, "model": outs[p["id"]], "real": o})
